@@ -89,7 +89,7 @@ def run(prop, tier, replay, Ctx):
         raise Ctx.Machinery("h_layout exited with %s and no report" % p.returncode)
     with open(out) as f:
         rep = json.load(f)
-    expected = summary["cases"][tier] + 9 + summary["sequences"][tier]
+    expected = summary["cases"][tier] + 9 + summary["sequences"][tier] + summary["overlap"][tier]
     if rep["coverage"]["evaluations"] != expected:
         raise Ctx.Machinery("h_layout evaluated %s cases, the generator emitted %s" % (rep["coverage"]["evaluations"], expected))
     rep["coverage"]["generator"] = dict(summary, repo=repo)
